@@ -1,5 +1,6 @@
 import LibconfigModel.Step
 import LibconfigModel.ReadFault
+import LibconfigModel.Containers
 import LibconfigModel.WF
 import LibconfigModel.Locale
 import LibconfigModel.Alloc
@@ -614,6 +615,23 @@ def stepLine (st : State) (w : List String) : State × String :=
     | _, _ => (st, "bad-op")
   | ["check_held", k] => match k.toNat? with | some k => (st, if k < 16 then "held ok" else "bad-op") | none => (st, "bad-op")
   | ["drop_held", _] => (st, "ok")
+  -- C03: the container models of Containers.lean, op by op (constants from the translated source)
+  | ["strbuf_seq", ops] =>
+    let B := Generated.STRING_BLOCK_SIZE
+    let step (acc : Containers.StrBuf × String) (t : String) : Containers.StrBuf × String :=
+      let op : Option Containers.StrBufOp :=
+        if t.startsWith "s" then (t.drop 1).toNat?.map Containers.StrBufOp.appendString
+        else if t == "c" then some .appendChar else if t == "r" then some .release else none
+      match op with
+      | some op => let b := acc.1.step B op; (b, acc.2 ++ s!"{b.length}/{b.capacity} ")
+      | none => acc
+    (st, ((ops.splitOn ",").foldl step ({}, "")).2 ++ "end")
+  | ["strvec_seq", ops] =>
+    let C := Generated.STRVEC_CHUNK_SIZE
+    let step (acc : Containers.StrVec × String) (ch : Char) : Containers.StrVec × String :=
+      let v := if ch == 'a' then acc.1.step C .append else if ch == 'r' then acc.1.step C .release else acc.1
+      (v, acc.2 ++ s!"{v.length}/{v.capacity}/{v.endIdx} ")
+    (st, (ops.toList.foldl step ({}, "")).2 ++ "end")
   -- C01: decided by the direct oracle only (the model's writer is cubic on such chains); the theorems are
   -- C01_parse_rebuilds (depth ≤ 1666 always rebuilt) and C01_deep_nesting_exhausts (≥ 4998 lists: "memory exhausted")
   | ["c01deep", _, _] => (st, "not-modelled")
